@@ -1,4 +1,163 @@
-From Coq Require Import ZArith List Bool.
+(* C17 — DINO and I-JEPA mask collators emit well-formed, budget-respecting, non-overlapping masks.
+   Statements only; proofs are in Proofs.v.
+
+   Quantification.  DINO: every configuration with grid H, W >= 0, views >= 0, 0 <= mask_prob <= 1, upper ratio >= 0
+   (dcfg_ok), every batch size B >= 0, every min_num_patches and every recorded draw sequence tr satisfying the
+   generator contract draw_ok (uniform in [lo, hi], integers in [lo, hi), round(sqrt) >= 0, shuffle a permutation).
+   I-JEPA: every grid H, W >= 1, every number of encoder / predictor masks, min_keep, tries, step counter, batch size
+   B >= 0, every block-size oracle returning non-negative values and every draw sequence satisfying draw_ok.
+   `... = Ok x` says: the recorded draws are the ones this code path asks for (kind and arguments) — which the
+   correspondence run establishes for the real collators on every case.
+
+   dRn/dRd is the last element of the float32 linspace the ratio bins come from (float32 of the configured upper
+   ratio); the model checks that the upper bound of every ratio draw does not exceed it. *)
+From Coq Require Import ZArith List Bool Permutation.
+Import ListNotations.
 From KD Require Import C17.Model C17.Spec C17.Proofs C17.Example.
-Theorem stub : True. Proof. exact I. Qed.
-Print Assumptions stub.
+Open Scope Z_scope.
+
+(* ================================================================ DINO *)
+(* everything the property says about the DINO collator, at once *)
+Theorem dino_collate_meets_spec : forall c B tr ms, dcfg_ok c -> 0 <= B -> Forall draw_ok tr ->
+  dino_collate c B tr = Ok ms -> dino_ok c B ms.
+Proof. exact dino_collate_ok. Qed.
+Print Assumptions dino_collate_meets_spec.
+
+(* at most floor(batch * views * mask_prob) masks are non-empty *)
+Theorem dino_nonempty_masks_le_budget : forall c B tr ms, dcfg_ok c -> 0 <= B -> Forall draw_ok tr ->
+  dino_collate c B tr = Ok ms -> count_nonempty ms <= budget c B.
+Proof. exact P_dino_nonempty_masks_le_budget. Qed.
+Print Assumptions dino_nonempty_masks_le_budget.
+
+(* _generate_mask: popcount(mask) = num_masked_patches <= num_masked_patches_total is an invariant of the while loop
+   (for every fuel, i.e. at whatever iteration the loop is left) ... *)
+Theorem dino_count_le_target : forall fuel c m num total tr m' num' tr',
+  Forall draw_ok tr -> popcount m = num -> num <= total ->
+  generate fuel c m num total tr = Ok (m', num', tr') -> popcount m' = num' /\ num' <= total.
+Proof. exact P_dino_count_le_target. Qed.
+Print Assumptions dino_count_le_target.
+
+(* ... the target int(u * num_patches) of a ratio draw is at most floor(ratio_max * num_patches) ... *)
+Theorem dino_target_le_cap : forall c lo hi u, dcfg_ok c -> draw_ok (DUnif lo hi u) ->
+  rat_leb hi (dRn c, dRd c) = true -> fst u * dP c / snd u <= cap c.
+Proof. exact P_dino_target_le_cap. Qed.
+Print Assumptions dino_target_le_cap.
+
+(* ... hence no returned mask exceeds the upper mask ratio *)
+Theorem dino_no_mask_exceeds_upper_ratio : forall c B tr ms, dcfg_ok c -> 0 <= B -> Forall draw_ok tr ->
+  dino_collate c B tr = Ok ms -> Forall (fun m => popcount m <= cap c) ms.
+Proof. exact P_dino_no_mask_exceeds_upper_ratio. Qed.
+Print Assumptions dino_no_mask_exceeds_upper_ratio.
+
+(* the while loop of _generate_mask ends within (total - num) iterations, whatever is drawn: every iteration that
+   does not break adds at least one patch; so the model's fuel never runs out *)
+Theorem dino_generate_terminates : forall c,
+  (forall m num total tr fuel, total - num <= Z.of_nat fuel -> generate fuel c m num total tr <> OutOfFuel) /\
+  (forall B tr, dino_collate c B tr <> OutOfFuel).
+Proof. exact P_dino_generate_terminates. Qed.
+Print Assumptions dino_generate_terminates.
+
+(* one mask per view-sample, each of the configured grid size *)
+Theorem dino_masks_have_grid_size : forall c B tr ms, dcfg_ok c -> 0 <= B -> Forall draw_ok tr ->
+  dino_collate c B tr = Ok ms -> len ms = B * dV c /\ Forall (well_shaped (dH c) (dW c)) ms.
+Proof. exact P_dino_masks_have_grid_size. Qed.
+Print Assumptions dino_masks_have_grid_size.
+
+(* ============================================================== I-JEPA *)
+(* everything the property says about one call of the I-JEPA collator, at once; in addition the sizes are the
+   step's sizes, the counter advanced by one and, inside the premise, no constrained sampling was retried *)
+Theorem ijepa_collate_meets_spec : forall c sizes ctr B tr o,
+  jcfg_ok c -> sizes_ok sizes -> 0 <= B -> Forall draw_ok tr ->
+  ijepa_collate c sizes ctr B tr = Ok o ->
+  (o_psize o, o_esize o) = block_sizes c sizes ctr /\ o_ctr o = ctr + 1 /\
+  ijepa_ok c B (o_psize o) (o_esize o) (o_enc o) (o_pred o) /\
+  (premise c (o_psize o) (o_esize o) ->
+   length tr = S (Z.to_nat B * (2 * jNPred c + 2 * jNEnc c))).
+Proof. exact ijepa_collate_ok. Qed.
+Print Assumptions ijepa_collate_meets_spec.
+
+(* every returned row is strictly increasing within [0, H*W): sorted, duplicate-free, in range *)
+Theorem ijepa_indices_sorted_nodup_inrange : forall c sizes ctr B tr o,
+  jcfg_ok c -> sizes_ok sizes -> 0 <= B -> Forall draw_ok tr -> ijepa_collate c sizes ctr B tr = Ok o ->
+  Forall (fun l => strictly_inc 0 l (jH c * jW c) = true) (o_enc o ++ o_pred o).
+Proof. exact P_ijepa_indices_sorted_nodup_inrange. Qed.
+Print Assumptions ijepa_indices_sorted_nodup_inrange.
+
+(* every predictor row is a full rectangle inside the grid, all of the one size sampled for this step *)
+Theorem ijepa_pred_rect_common_size : forall c sizes ctr B tr o,
+  jcfg_ok c -> sizes_ok sizes -> 0 <= B -> Forall draw_ok tr -> ijepa_collate c sizes ctr B tr = Ok o ->
+  len (o_pred o) = Z.of_nat (jNPred c) * B /\
+  Forall (is_rect (jH c) (jW c) (fst (o_psize o)) (snd (o_psize o))) (o_pred o).
+Proof. exact P_ijepa_pred_rect_common_size. Qed.
+Print Assumptions ijepa_pred_rect_common_size.
+
+(* inside the premise enc_area - n_pred * pred_area > min_keep, encoder mask j of sample b shares no patch with
+   predictor mask k of the same sample (rows j*B + b and k*B + b of the two returned tensors) *)
+Theorem ijepa_enc_disjoint_from_pred : forall c sizes ctr B tr o,
+  jcfg_ok c -> sizes_ok sizes -> 0 <= B -> Forall draw_ok tr -> ijepa_collate c sizes ctr B tr = Ok o ->
+  premise c (o_psize o) (o_esize o) ->
+  forall j k b : nat, (j < jNEnc c)%nat -> (k < jNPred c)%nat -> Z.of_nat b < B ->
+    disjoint (row (o_enc o) B (Z.of_nat j) (Z.of_nat b)) (row (o_pred o) B (Z.of_nat k) (Z.of_nat b)).
+Proof. exact P_ijepa_enc_disjoint_from_pred. Qed.
+Print Assumptions ijepa_enc_disjoint_from_pred.
+
+(* all encoder rows have one length, all predictor rows have one length (inside or outside the premise) *)
+Theorem ijepa_common_length : forall c sizes ctr B tr o,
+  jcfg_ok c -> sizes_ok sizes -> 0 <= B -> Forall draw_ok tr -> ijepa_collate c sizes ctr B tr = Ok o ->
+  len (o_enc o) = Z.of_nat (jNEnc c) * B /\
+  (exists k, common_length k (o_enc o)) /\ (exists k, common_length k (o_pred o)).
+Proof. exact P_ijepa_common_length. Qed.
+Print Assumptions ijepa_common_length.
+
+(* two calls made at the same step counter (other batch size, other draws, other instance of the same
+   configuration) use the same block sizes, and each advances the counter by exactly one *)
+Theorem ijepa_size_depends_only_on_step : forall c sizes ctr B1 B2 tr1 tr2 o1 o2,
+  ijepa_collate c sizes ctr B1 tr1 = Ok o1 -> ijepa_collate c sizes ctr B2 tr2 = Ok o2 ->
+  o_psize o1 = o_psize o2 /\ o_esize o1 = o_esize o2 /\ o_ctr o1 = ctr + 1 /\ o_ctr o2 = ctr + 1.
+Proof. exact P_ijepa_size_depends_only_on_step. Qed.
+Print Assumptions ijepa_size_depends_only_on_step.
+
+(* inside the premise the first constrained draw is always accepted: exactly two integer draws per mask *)
+Theorem ijepa_no_retry_inside_premise : forall c sizes ctr B tr o,
+  jcfg_ok c -> sizes_ok sizes -> 0 <= B -> Forall draw_ok tr -> ijepa_collate c sizes ctr B tr = Ok o ->
+  premise c (o_psize o) (o_esize o) -> length tr = S (Z.to_nat B * (2 * jNPred c + 2 * jNEnc c)).
+Proof. exact P_ijepa_no_retry_inside_premise. Qed.
+Print Assumptions ijepa_no_retry_inside_premise.
+
+(* beyond the property (which claims nothing outside its premise): the while-True loop of
+   _sample_block_mask_constrained ends after at most len(acceptable_regions) * tries + 1 iterations, whatever is drawn,
+   as soon as the encoder block has more than min_keep patches (tries >= 1) - after that many rejections no complement
+   is applied any more.  When the block has <= min_keep patches the real loop never ends (observed, classified
+   RUNAWAY by the harness). *)
+Theorem ijepa_constrained_ends_when_block_exceeds_min_keep : forall fuel c eh ew acc tries tr,
+  jcfg_ok c -> Forall draw_ok tr -> 0 <= eh -> 0 <= ew -> 1 <= jTries c -> 0 <= tries -> jMinKeep c < eh * ew ->
+  Z.max (len acc * jTries c - tries) 0 + 1 <= Z.of_nat fuel ->
+  constrained fuel c eh ew acc tries tr <> OutOfFuel.
+Proof. exact constrained_ends. Qed.
+Print Assumptions ijepa_constrained_ends_when_block_exceeds_min_keep.
+
+(* ================================================================ both *)
+(* the batch is returned as it came; without a ctx nothing is drawn and the step counter does not move *)
+Theorem batch_passthrough : forall (A : Type) (batch : A),
+  (forall c has_ctx B tr b' r, dino_call c batch has_ctx B tr = Ok (b', r) ->
+     b' = batch /\ (has_ctx = false -> r = None /\ tr = [])) /\
+  (forall c sizes ctr has_ctx B tr b' ctr' r, ijepa_call c sizes ctr batch has_ctx B tr = Ok (b', ctr', r) ->
+     b' = batch /\ (has_ctx = false -> r = None /\ tr = [] /\ ctr' = ctr)).
+Proof. exact P_batch_passthrough. Qed.
+Print Assumptions batch_passthrough.
+
+(* ======================================================== non-vacuity *)
+(* a recorded run of the real DINO collator satisfies every premise and is not trivial *)
+Example dino_premises_satisfiable :
+  dcfg_ok ex_dcfg /\ Forall draw_ok ex_dtrace /\ dino_collate ex_dcfg 1 ex_dtrace = Ok ex_dout /\
+  count_nonempty ex_dout = 1 /\ budget ex_dcfg 1 = 1 /\ map popcount ex_dout = [0; 5] /\ cap ex_dcfg = 6.
+Proof. exact (conj ex_dcfg_ok (conj ex_dtrace_ok (conj ex_dino_run ex_dino_nontrivial))). Qed.
+
+(* a recorded run of the real I-JEPA collator satisfies every premise, lies inside the disjointness premise and the
+   encoder blocks did lose cells to predictor blocks (8 of 16 left) *)
+Example ijepa_premises_satisfiable :
+  jcfg_ok ex_jcfg /\ sizes_ok ex_sizes /\ Forall draw_ok ex_jtrace /\
+  exists o, ijepa_collate ex_jcfg ex_sizes (-1) 2 ex_jtrace = Ok o /\
+    o_enc o = ex_enc /\ o_pred o = ex_pred /\ o_psize o = (2, 2) /\ o_esize o = (4, 4) /\ o_ctr o = 0 /\
+    premise ex_jcfg (o_psize o) (o_esize o).
+Proof. exact (conj ex_jcfg_ok (conj ex_sizes_ok (conj ex_jtrace_ok ex_ijepa_run))). Qed.
